@@ -15,6 +15,7 @@ func init() {
 }
 
 func c16(c *q.Ctx) {
+	blockAgentHashes(c)
 	// ---- TDPoS
 	td := c.Fn("bcs/consensus/tdpos::(*tdposConsensus).CheckMinerMatch")
 	if td != nil {
